@@ -2665,7 +2665,7 @@ class CaseExpr(ColExpr):
             raise TypeError("cannot call `when` on a closed case expression after")
 
         condition = wrap_literals(condition)
-        if condition.dtype() is not None and not isinstance(condition.dtype(), types.Bool):
+        if condition.dtype() is not None and not isinstance(types.without_const(condition.dtype()), types.Bool):
             raise DataTypeError(f"argument for `when` must be of boolean type, but has type `{condition.dtype()}`")
 
         return WhenClause(self.cases, wrap_literals(condition))
